@@ -326,6 +326,35 @@ def run(ctx):
     ctor = [f for f in P.fns.values() if f.brecord == 'cppcms::triggers_recorder' and f.kind == 'ctor']
     ctx.check(bool(ctor) and any(f.bcallee(i) == CI + 'add_triggers_recorder' for f in ctor for i in f.calls()), R6, 'triggers_recorder:registers', 'recorder never registered', ctor[0].where if ctor else None)
 
+    # ---------------- R7  key equality used by the primary map and the trigger index
+    R7 = ctx.rule('C07.R7', 'key equality functor compares the lengths and the whole content (two different keys never alias)')
+    from rules.C08 import dnf
+    eqs = [f for f in P.fns.values() if f.brecord == 'cppcms::impl::string_equal' and f.short == 'operator()']
+    ctx.require(eqs, 'C07.R7: string_equal::operator() not instantiated')
+    for k, f in enumerate(sorted(eqs, key=lambda g: g.id)):
+        rets = [r for r in f.returns() if f.ret_value(r) is not None]
+        ok = bool(rets)
+        for r in rets:
+            for conj in dnf(f, f.ret_value(r), True):
+                size_eq = False
+                full_cmp = False
+                for (leaf, pol) in conj:
+                    n = f.N(leaf)
+                    if n['k'] == 'BinaryOperator' and n.get('op') == '==' and pol:
+                        calls = [q.short_of(f.callee(j)) for j in f.calls(leaf)]
+                        if calls.count('size') == 2 and len(calls) == 2:
+                            size_eq = True
+                        mc = [j for j in f.calls(leaf) if f.callee(j) in ('memcmp', 'strncmp')]
+                        if mc and f.const_value(n['ch'][1]) == 0:
+                            a = f.args(mc[0])
+                            if len(a) == 3 and any(q.short_of(f.callee(j)) == 'size' for j in f.calls(a[2])) and not any(f.N(j)['k'] == 'BinaryOperator' for j in f.walk(a[2])):
+                                full_cmp = True
+                    if n['k'] == 'CXXOperatorCallExpr' and n.get('op') == '==' and pol:
+                        size_eq = full_cmp = True       # std::string operator==
+                ok = ok and size_eq and full_cmp
+        ctx.check(ok, R7, 'string_equal#%d:lengths-and-content' % k, 'keys compare equal without equal length and full-content comparison (prefix aliasing)', f.where)
+    ctx.floor(R7, 2)
+
     ctx.floor(R1, 2 * 10)
     ctx.floor(R2, 2 * 8)
     ctx.floor(R3, 2 * 4)
